@@ -376,7 +376,8 @@ def assigned_names(stmts):
         elif isinstance(n, (getattr(ast, "MatchAs", ()), getattr(ast, "MatchStar", ()))) and getattr(n, "name", None):
             out.append(n.name)
         elif isinstance(n, ast.Expr) and isinstance(n.value, ast.Call) and isinstance(n.value.func, ast.Attribute) \
-                and isinstance(n.value.func.value, ast.Name) and n.value.func.attr in MUTATORS:
+                and isinstance(n.value.func.value, ast.Name) and n.value.func.attr in MUTATORS \
+                and not (n.value.func.attr == "setdefault" and len(n.value.args) == 2 and not n.value.keywords):      # read as a guarded item store (s_Expr)
             out.append(n.value.func.value.id)
         elif isinstance(n, ast.Expr) and isinstance(n.value, ast.Call) and isinstance(n.value.func, (ast.Attribute, ast.Name)) \
                 and (n.value.func.attr if isinstance(n.value.func, ast.Attribute) else n.value.func.id) in INPLACE_CALLS and n.value.args and isinstance(n.value.args[0], ast.Name):
@@ -771,6 +772,15 @@ class Evaluator:
         return tree if tree != FALL else None
 
     def s_Expr(self, st, env, ctx):
+        c0 = st.value
+        if isinstance(c0, ast.Call) and isinstance(c0.func, ast.Attribute) and c0.func.attr == "setdefault" and len(c0.args) == 2 and not c0.keywords \
+                and isinstance(c0.func.value, (ast.Name, ast.Attribute)):
+            # d.setdefault(k, v) as a statement (result discarded) is   if k not in d: d[k] = v
+            tgt = ast.Subscript(value=c0.func.value, slice=c0.args[0], ctx=ast.Store())
+            node = ast.If(test=ast.Compare(left=c0.args[0], ops=[ast.NotIn()], comparators=[c0.func.value]), body=[ast.Assign(targets=[tgt], value=c0.args[1])], orelse=[])
+            ast.copy_location(node, st)
+            ast.fix_missing_locations(node)
+            return self.block([node], env, ctx)
         v = self.ev(st.value, env, ctx)
         self.emit("expr", ctx, st, value=v)
         rt = self._helper_raises(v)
@@ -1396,6 +1406,9 @@ class Analyzer:
                 r_ = apply_lam(strip(x[1]), x[2], dict(x[3]))
                 if r_ is not None:
                     return r_
+            if head(x) == "item" and isinstance(x[2], int) and head(strip(x[1])) == "tuple" and 0 <= x[2] < len(strip(x[1])[1]) \
+                    and not any(head(strip(y)) == "star" for y in strip(x[1])[1]):
+                return strip(x[1])[1][x[2]]          # a, b = helper(...) with helper returning the pair (x, y)
             return x
 
         def rp(v):
